@@ -650,6 +650,40 @@ def rand_annotation(rng, pool=("Override", "Deprecated", "Test", "Ignore", "Auto
     if r < 0.85: return Annotation(rng.choice(["SuppressWarnings", "Qualifier", "RequestMapping"]), value=[rng.choice(['"unchecked"', '"/api"', "Foo", "X"])])
     return Annotation(rng.choice(["RequestMapping", "Column"]), pairs=[("value", ['"/x"']), ("name", ['"n"'])][:rng.randint(1, 2)])
 
+def colliding_unit(rng, pkg, name, path_dir="", same_name=True, annotate=None):
+    """A class of some length in which the POSITIONS of two functions, written in decimal one after the other, read the
+    same: same_name=True -> two overloads `add` whose (line, column) pairs concatenate to one string (4,18 and 41,8:
+    "418"); same_name=False -> `test12` on line L and `test1` on line "2L" in the same column (name + line reads
+    "test127" for both).  A key built from names and positions without separators confuses exactly these.
+    Returns None when no filler count hits the coincidence (then the caller generates an ordinary unit)."""
+    import random as _r
+    def build(k, ind_mods, extra=0):
+        fill = [Method("fill%d" % i, None, [], [ExprS(Call(Name("svc"), "run", []))] if i % 2 else [], ["public"]) for i in range(k)]
+        ann = [annotate] if annotate else []
+        if same_name:
+            m1 = Method("add", T("int"), [(T("int"), "a")], [ExprS(Call(Name("svc"), "run", []))] * extra + [Return(Lit("1"))], ann + ind_mods)
+            m2 = Method("add", T("int"), [(T("int"), "a"), (T("int"), "b")], [ExprS(Call(Name("svc"), "save", [])), Return(Lit("2"))], ann)
+        else:
+            m1 = Method("test12", None, [], [ExprS(Call(Name("Thread"), "sleep", [Lit("10")])), ExprS(Call(None, "assertTrue", [Lit("true")]))], ann + ["public"])
+            m2 = Method("test1", None, [], [ExprS(Call(None, "assertTrue", [Lit("true")])), ExprS(Call(Name("svc"), "run", []))], ann + ["public"])
+        members = [Field(T("Svc"), ["svc"], ["private"]), m1] + fill + [m2]
+        path = (path_dir + "/" if path_dir else "") + (pkg.replace(".", "/") + "/" if pkg else "") + name + ".java"
+        u = Unit(path, pkg, [], "class", name, members)
+        render(u, _r.Random(7), "std")
+        u.text = u.text.replace("\r\n", "\n"); u.crlf = False
+        return u, m1, m2
+    for ind_mods, extra in [(m, e) for e in (0, 1, 2) for m in (["protected"], ["public", "static"], ["private", "final"])]:
+        for k in range(0, 70):
+            u, m1, m2 = build(k, ind_mods, extra)
+            t1, t2 = u.toks[m1.name_tok], u.toks[m2.name_tok]
+            if same_name:
+                if (t1.line, t1.col) != (t2.line, t2.col) and "%d%d" % (t1.line, t1.col) == "%d%d" % (t2.line, t2.col):
+                    return u
+            else:
+                if t1.col == t2.col and "test12%d" % t1.line == "test1%d" % t2.line:
+                    return u
+    return None
+
 def rand_unit(rng, idx, project, layout=None, bodies=True, path_dir="src/main/java"):
     """project: list of (pkg, name) of all types of the generated project"""
     pkg, name = project[idx]
